@@ -24,14 +24,15 @@ fn path_for(k: usize, dirs: &[u8]) -> String {
 
 fn strategy(tier: Tier) -> BoxedStrategy<Case> {
     let plen = match tier {
-        Tier::Quick => prop_oneof![8 => 1usize..=64, 1 => prop::sample::select(vec![100usize, 255, 256, 1000])].boxed(),
+        Tier::Quick => prop_oneof![160 => 1usize..=64, 20 => prop::sample::select(vec![100usize, 255, 256, 1000]), 1 => prop::sample::select(vec![262143usize, 262144, 262145, 300000, 524288])].boxed(),
         Tier::Thorough => {
-            prop_oneof![8 => 1usize..=64, 1 => prop::sample::select(vec![100usize, 255, 256, 1000, 16383, 16384, 16385])].boxed()
+            prop_oneof![160 => 1usize..=64, 20 => prop::sample::select(vec![100usize, 255, 256, 1000, 16383, 16384, 16385]), 1 => prop::sample::select(vec![65536usize, 262143, 262144, 262145, 300000, 524288, 1048577])].boxed()
         }
     };
     (plen, any::<bool>(), any::<u64>())
         .prop_flat_map(|(pl, multi, seed)| {
-            let nfiles = if multi { 0usize..=8 } else { 1usize..=1 };
+            // keep the very large geometries small in file count
+            let nfiles = if multi { if pl > 100_000 { 0usize..=3 } else { 0usize..=8 } } else { 1usize..=1 };
             let flen = prop_oneof![
                 2 => Just(0usize),
                 4 => 0..=3 * pl,
@@ -65,6 +66,7 @@ pub fn classify(geo: &Geometry, o: &mut Outcome) {
         pos = e;
     }
     o.class_if(geo.multi, "multi-file-form");
+    o.class_if(geo.piece_len > 262144, "piece-length>256KiB");
     o.class_if(geo.total() == 0, "empty-content");
     o.nontrivial = o.classes.iter().any(|c| {
         *c == "file-inside-one-piece-offset>0" || *c == "file-crosses-piece-boundary" || *c == "zero-length-file"
